@@ -954,6 +954,12 @@ func (app *Haqq) setPostHandler() {
 // of the new block for every registered module. If there is a registered fork at the current height,
 // BeginBlocker will schedule the upgrade plan and perform the state migration (if any).
 func (app *Haqq) BeginBlocker(ctx sdk.Context, req abci.RequestBeginBlock) abci.ResponseBeginBlock {
+	// Meter BeginBlock on its own gas meter. Modules do process-local work in the
+	// first block after a start (rebuilding the capability mem store, verifying the
+	// last upgrade); left on the block context's meter that gas leaks into the gas
+	// used of transactions that fail before the ante handler, and from there into
+	// the block gas, so a restarted node would disagree with one that never stopped.
+	ctx = ctx.WithGasMeter(sdk.NewInfiniteGasMeter())
 	// Perform any scheduled forks before executing the modules logic
 	app.ScheduleForkUpgrade(ctx)
 	return app.mm.BeginBlock(ctx, req)
